@@ -204,7 +204,20 @@ func (c *Ctx) hostileWire(s *Sys, to int) []byte {
 		}
 		return m
 	case 6:
-		return []byte(fmt.Sprintf("?OTR|%08x|%08x,%d,%d,%s,", peerTagFor(s, to), c.R.Intn(2)*5, c.R.Intn(70000), c.R.Intn(70000), c.genPayload(c.R.Intn(8))))
+		st, rt, k, n, pl := peerTagFor(s, to), c.R.Intn(2)*5, c.R.Intn(70000), c.R.Intn(70000), c.genPayload(c.R.Intn(8))
+		switch c.R.Intn(8) {
+		case 0: // one separator between the tags missing
+			return []byte(fmt.Sprintf("?OTR|%08x%08x,%d,%d,%s,", st, rt, k, n, pl))
+		case 1: // one too many
+			return []byte(fmt.Sprintf("?OTR|%08x|%08x|%07x,%d,%d,%s,", st, rt, 1, k, n, pl))
+		case 2:
+			return []byte(fmt.Sprintf("?OTR|%08x,%08x,%d,%d,%s,", st, rt, k, n, pl))
+		case 3:
+			return []byte("?OTR|" + string(c.genPayload(c.R.Intn(30))))
+		case 4:
+			return []byte(fmt.Sprintf("?OTR||%08x|%08x,%d,%d,%s,", st, rt, k, n, pl))
+		}
+		return []byte(fmt.Sprintf("?OTR|%08x|%08x,%d,%d,%s,", st, rt, k, n, pl))
 	case 7:
 		return []byte(fmt.Sprintf("?OTR,%d,%d,%s,", c.R.Intn(4), c.R.Intn(4), c.genPayload(c.R.Intn(8))))
 	case 8:
